@@ -1,13 +1,82 @@
 //! C06 — axis permutations: transpose / moveaxis / rollaxis / swapaxes. Value protocol with tags.
+//!
+//! Every case is executed on the i64 tag array (the answer compared with the model) AND on nine images of the tag array in
+//! other element types (u8, i8, u64 beyond 2^53, f64 with tag 0 = -0.0, f32 likewise, an f64 table of special values
+//! (-0.0, +0.0, NaN, subnormal, inf) compared bit-wise, bool, String, char), each through BOTH receivers: the plain
+//! `Array<T>` call and the same call on `Ok(array)` through `impl ArrayAxis<T> for Result<Array<T>, ArrayError>`.
 use arrharness::*;
+use std::panic::{catch_unwind, AssertUnwindSafe};
 
 fn spell(ax: usize, nd: usize, neg: bool) -> isize { if neg { ax as isize - nd as isize } else { ax as isize } }
+
+// ------------------------------------------------------------------------------------------------ generator
+
+/// the six spellings of "flip a matrix" (all must be the reversed-axes transpose)
+fn flips(a: &str, out: &mut dyn FnMut(String)) {
+    out(format!("transpose {a} none")); out(format!("transpose {a} 1,0")); out(format!("transpose {a} -1,-2"));
+    out(format!("swapaxes {a} 0 1")); out(format!("swapaxes {a} -1 0"));
+    out(format!("moveaxis {a} 0 -1")); out(format!("moveaxis {a} 1 0")); out(format!("rollaxis {a} 1 none")); out(format!("rollaxis {a} -1 0"));
+    out(format!("transpose {a} 0,1")); out(format!("transpose {a} -2,1"));
+}
+
+/// tag array whose tag 0 (= -0.0 / the zero element in every image) sits in the middle instead of at flat position 0
+fn centred(s: &[usize]) -> String { let n: usize = s.iter().product(); if n < 2 { tag(s) } else { tag_off(s, -((n / 2) as i64)) } }
+
+fn inverse(p: &[usize]) -> Vec<usize> { let mut q = vec![0; p.len()]; for (k, &x) in p.iter().enumerate() { q[x] = k; } q }
+
+/// every operation on one (possibly big) shape: all permutations for rank <= 3 (sampled above), every swap / single move / roll
+fn all_ops_on(s: &[usize], a: &str, rng: &mut Rng, light: bool, out: &mut dyn FnMut(String)) {
+    let nd = s.len();
+    out(format!("transpose {a} none"));
+    let perms: Vec<Vec<usize>> = if nd <= 3 { permutations(nd) } else {
+        let mut v = vec![(0..nd).collect::<Vec<_>>(), (0..nd).rev().collect(), (0..nd).map(|k| (k + 1) % nd).collect()];
+        for _ in 0..(if light { 1 } else { 4 }) { v.push(rng.perm(nd)); } v };
+    for p in &perms {
+        let m = rng.below(1 << nd);
+        for mask in [0usize, (1 << nd) - 1, m] {
+            if light && mask != m { continue; }
+            let ax: Vec<isize> = p.iter().enumerate().map(|(k, &x)| spell(x, nd, (mask >> k) & 1 == 1)).collect();
+            out(format!("transpose {a} {}", show_list(&ax)));
+        }
+    }
+    for i in 0..nd { for j in 0..nd {
+        if light && i >= j { continue; }
+        let (ni, nj) = (rng.below(2) == 0, rng.below(2) == 0);
+        out(format!("swapaxes {a} {} {}", spell(i, nd, ni), spell(j, nd, nj)));
+        out(format!("moveaxis {a} {} {}", spell(i, nd, nj), spell(j, nd, ni)));
+        out(format!("rollaxis {a} {} {}", spell(i, nd, ni), spell(j, nd, !nj)));
+    } out(format!("rollaxis {a} {} none", spell(i, nd, rng.below(2) == 0))); }
+    if nd >= 2 && !light {
+        let (ps, pd) = (rng.perm(nd), rng.perm(nd)); let k = 2 + rng.below(nd - 1);
+        out(format!("moveaxis {a} {} {}", show_list(&ps[..k]), show_list(&pd[..k])));
+    }
+}
+
+fn step_text(rng: &mut Rng, nd: usize) -> String {
+    let sp = |rng: &mut Rng, x: usize| spell(x, nd, rng.below(2) == 0);
+    match rng.below(5) {
+        0 => "transpose=none".to_string(),
+        1 => { let p = rng.perm(nd); let ax: Vec<isize> = p.iter().map(|&x| sp(rng, x)).collect(); format!("transpose={}", show_list(&ax)) }
+        2 => { let k = 1 + rng.below(nd); let (ps, pd) = (rng.perm(nd), rng.perm(nd));
+               let sv: Vec<isize> = ps[..k].iter().map(|&x| sp(rng, x)).collect(); let dv: Vec<isize> = pd[..k].iter().map(|&x| sp(rng, x)).collect();
+               format!("moveaxis={}={}", show_list(&sv), show_list(&dv)) }
+        3 => { let (i, j) = (rng.below(nd), rng.below(nd)); if rng.below(4) == 0 { format!("rollaxis={}=none", sp(rng, i)) } else { format!("rollaxis={}={}", sp(rng, i), sp(rng, j)) } }
+        _ => { let (i, j) = (rng.below(nd), rng.below(nd)); format!("swapaxes={}={}", sp(rng, i), sp(rng, j)) }
+    }
+}
 
 fn gen(tier: &str, seed: u64, out: &mut dyn FnMut(String)) {
     let thorough = tier == "thorough";
     let mut rng = Rng::new(seed);
+    // corpus of past misses (seeded changes C06-r2-m1, -m2, -m3): one literal witness each; the classes follow in the streams below
+    out("transpose 2,3:1,0,2,0,3,0 none".into());
+    out("transpose i9,9+1 none".into());
+    out("transpose i0,3 none".into());
+
     let mut all = shapes(1, 4, 1, 3);
     all.extend(vec![vec![2, 0], vec![0], vec![3, 0, 2]]);
+    // stream 2 — zero-length axes: every zero shape goes through the whole exhaustive enumeration (+ malformed stream) below
+    for z in zero_shapes().into_iter().chain(vec![vec![0, 3], vec![3, 0], vec![0, 3, 0], vec![0, 0, 0], vec![1, 0, 1], vec![2, 1, 0, 3]]) { if !all.contains(&z) { all.push(z); } }
     for s in &all {
         let nd = s.len(); let a = tag(s);
         out(format!("transpose {a} none"));
@@ -49,6 +118,26 @@ fn gen(tier: &str, seed: u64, out: &mut dyn FnMut(String)) {
             out(format!("transpose {a} {}", show_list(&(0..nd_i + 1).collect::<Vec<_>>()))); // too long
             out(format!("moveaxis {a} 0,0 0,1")); out(format!("moveaxis {a} 0,1 1,1")); out(format!("moveaxis {a} 0,-{nd} 0,1")); out(format!("moveaxis {a} 0,1 0"));
         }
+        // stream 5 — a permutation followed by its inverse, and the same call twice, threaded through one chain (rank <= 3: every
+        // permutation; rank 4: sampled); the tag with value 0 sits in the middle of the array
+        let c = centred(s);
+        let perms = if nd <= 3 || thorough { permutations(nd) } else { (0..3).map(|_| rng.perm(nd)).collect() };
+        for p in perms {
+            let q = inverse(&p);
+            let neg = rng.below(2) == 0;
+            let (ps, qs): (Vec<isize>, Vec<isize>) = (p.iter().map(|&x| spell(x, nd, neg)).collect(), q.iter().map(|&x| spell(x, nd, !neg)).collect());
+            out(format!("chain {c} transpose={}|transpose={}", show_list(&ps), show_list(&qs)));
+            out(format!("chain {c} transpose={}|transpose={}", show_list(&ps), show_list(&ps)));
+            // moving the axes p -> 0..nd is the transpose with order inverse... stated by the model; compared here
+            out(format!("chain {c} moveaxis={}={}|moveaxis={}={}", show_list(&ps), show_list(&(0..nd).collect::<Vec<_>>()), show_list(&(0..nd).collect::<Vec<_>>()), show_list(&ps)));
+        }
+        out(format!("chain {c} transpose=none|transpose=none")); out(format!("chain {c} -"));
+        for i in 0..nd { for j in 0..nd {
+            out(format!("chain {c} swapaxes={i}={}|swapaxes={}={i}", spell(j, nd, true), spell(j, nd, true)));
+            out(format!("chain {c} rollaxis={i}={j}|moveaxis={j}={i}"));
+            out(format!("chain {c} moveaxis={i}={j}|moveaxis={}={}", spell(j, nd, true), spell(i, nd, true)));
+        } }
+        out(format!("chain {c} transpose={}|transpose=none", show_list(&vec![0isize; nd + 1])));   // an error in the middle of a chain is passed on
     }
     // random beyond the exhaustive scope: rank 5 (and 6 in thorough), lengths up to 4
     let n_rand = if thorough { 3000 } else { 300 };
@@ -66,17 +155,151 @@ fn gen(tier: &str, seed: u64, out: &mut dyn FnMut(String)) {
             _ => out(format!("swapaxes {a} {} {}", spell(rng.below(nd), nd, rng.below(2) == 0), spell(rng.below(nd), nd, rng.below(2) == 0))),
         }
     }
+
+    // ------------------------------------------------------------------ stream 1 — sizes beyond the small scope
+    // (the model's transpose is a quadratic scatter: ~0.3 s for 70x70, so shapes above 2500 elements get the light op set in quick)
+    for s in big_shapes() {
+        let n: usize = s.iter().product();
+        all_ops_on(&s, &centred(&s), &mut rng, !thorough && n > 2500, out);
+    }
+    // every matrix with both axis lengths in 7..=17 (tile / unroll boundaries 8 and 16 from both sides), all spellings of the flip
+    for r in 7..=17usize { for c in 7..=17usize { flips(&centred(&[r, c]), out); } }
+    // boundaries 32 and 64 (quick: 15..17 x 31..33 both ways; thorough adds 63..65 and long thin matrices)
+    let mut edge: Vec<Vec<usize>> = vec![];
+    for &r in &[15usize, 16, 17, 31, 32, 33] { for &c in &[31usize, 32, 33] { edge.push(vec![r, c]); edge.push(vec![c, r]); } }
+    edge.extend(vec![vec![1, 300], vec![300, 1], vec![2, 1030], vec![129, 9], vec![9, 129], vec![3, 257], vec![255, 3]]);
+    if thorough { for &r in &[9usize, 63, 64, 65] { for &c in &[63usize, 64, 65] { edge.push(vec![r, c]); edge.push(vec![c, r]); } }
+                  edge.extend(vec![vec![1, 4100], vec![4100, 1], vec![2, 2050], vec![513, 8], vec![9, 500]]); }
+    edge.sort(); edge.dedup();
+    for s in &edge { let a = centred(s); if thorough { flips(&a, out); } else { out(format!("transpose {a} none")); out(format!("swapaxes {a} -1 0")); out(format!("moveaxis {a} 0 -1")); } }
+    // rank 3 with every axis from {1,2,8,9,17}: every permutation, every swap / move / roll
+    let lens = [1usize, 2, 8, 9, 17];
+    for &x in &lens { for &y in &lens { for &z in &lens {
+        let s = vec![x, y, z]; let n = x * y * z;
+        if n > (if thorough { 2500 } else { 1400 }) || [x, y, z].iter().filter(|&&d| d >= 8).count() == 0 { continue; }
+        all_ops_on(&s, &centred(&s), &mut rng, !thorough && n > 300, out);
+    } } }
+    // random rank 2..5 with one or two long axes (7..17) among short ones
+    for _ in 0..(if thorough { 1500 } else { 250 }) {
+        let nd = 2 + rng.below(4);
+        let mut s: Vec<usize> = (0..nd).map(|_| 1 + rng.below(3)).collect();
+        for _ in 0..(1 + rng.below(2)) { let k = rng.below(nd); s[k] = 7 + rng.below(11); }
+        if s.iter().product::<usize>() > 2000 { continue; }
+        let a = centred(&s);
+        if rng.below(3) == 0 {
+            let steps: Vec<String> = (0..(2 + rng.below(3))).map(|_| step_text(&mut rng, nd)).collect();
+            out(format!("chain {a} {}", steps.join("|")));
+        } else {
+            let st = step_text(&mut rng, nd); let parts: Vec<&str> = st.split('=').collect();
+            out(format!("{} {a} {}", parts[0], parts[1..].join(" ")));
+        }
+    }
+    // chains on big shapes: flip and flip back, three-cycle thrice
+    for s in big_shapes().into_iter().chain(vec![vec![9, 10], vec![13, 10], vec![17, 9], vec![12, 20], vec![33, 9]]) {
+        let n: usize = s.iter().product(); if n > (if thorough { 5000 } else { 1500 }) { continue; }
+        let (a, nd) = (centred(&s), s.len());
+        out(format!("chain {a} transpose=none|transpose=none"));
+        if nd >= 2 { out(format!("chain {a} swapaxes=0=-1|swapaxes=-1=0")); out(format!("chain {a} rollaxis=-1=0|moveaxis=0=-1")); }
+        if nd >= 3 { let rot: Vec<usize> = (0..nd).map(|k| (k + 1) % nd).collect(); let t = format!("transpose={}", show_list(&rot)); out(format!("chain {a} {}", vec![t; nd].join("|"))); }
+    }
+}
+
+// ------------------------------------------------------------------------------------------------ executor
+
+#[derive(Clone)]
+enum Call { Transpose(Option<Vec<isize>>), Moveaxis(Vec<isize>, Vec<isize>), Rollaxis(isize, Option<isize>), Swapaxes(isize, isize) }
+
+impl Call {
+    fn parse(name: &str, args: &[&str]) -> Option<Call> {
+        Some(match (name, args.len()) {
+            ("transpose", 1) => Call::Transpose(if args[0] == "none" { None } else { Some(parse_isize_list(args[0])) }),
+            ("moveaxis", 2) => Call::Moveaxis(parse_isize_list(args[0]), parse_isize_list(args[1])),
+            ("rollaxis", 2) => Call::Rollaxis(args[0].parse().ok()?, parse_opt(args[1])),
+            ("swapaxes", 2) => Call::Swapaxes(args[0].parse().ok()?, args[1].parse().ok()?),
+            _ => return None,
+        })
+    }
+    /// the plain receiver
+    fn on_array<T: ArrayElement>(&self, a: &Array<T>) -> Result<Array<T>, ArrayError> {
+        match self {
+            Call::Transpose(ax) => a.transpose(ax.clone()),
+            Call::Moveaxis(s, d) => a.moveaxis(s.clone(), d.clone()),
+            Call::Rollaxis(ax, st) => a.rollaxis(*ax, *st),
+            Call::Swapaxes(i, j) => a.swapaxes(*i, *j),
+        }
+    }
+    /// the chained receiver: `impl ArrayAxis<T> for Result<Array<T>, ArrayError>`
+    fn on_result<T: ArrayElement>(&self, r: &Result<Array<T>, ArrayError>) -> Result<Array<T>, ArrayError> {
+        match self {
+            Call::Transpose(ax) => r.transpose(ax.clone()),
+            Call::Moveaxis(s, d) => r.moveaxis(s.clone(), d.clone()),
+            Call::Rollaxis(ax, st) => r.rollaxis(*ax, *st),
+            Call::Swapaxes(i, j) => r.swapaxes(*i, *j),
+        }
+    }
+}
+
+/// `Err(())` = the call panicked
+type Out<T> = Result<Result<Array<T>, ArrayError>, ()>;
+
+fn run<T: ArrayElement>(a: &Array<T>, steps: &[Call], chained: bool) -> Out<T> {
+    catch_unwind(AssertUnwindSafe(|| {
+        if chained { let mut r: Result<Array<T>, ArrayError> = Ok(a.clone()); for c in steps { r = c.on_result(&r); } r }
+        else { let mut cur = a.clone(); for c in steps { match c.on_array(&cur) { Ok(x) => cur = x, Err(e) => return Err(e) } } Ok(cur) }
+    })).map_err(|_| ())
+}
+
+fn class<T: ArrayElement>(o: &Out<T>) -> &'static str { match o { Err(()) => "panic", Ok(Err(_)) => "err", Ok(Ok(_)) => "ok" } }
+
+/// the same steps on the image of the tag array in element type `T`, both receivers; the result must be the image of the i64 result
+fn image<T: ArrayElement>(label: &str, shape: &[usize], tags: &[i64], steps: &[Call], canon: &Out<i64>, from: impl Fn(i64) -> T, same: impl Fn(&T, &T) -> bool) -> Option<String> {
+    let a: Array<T> = Array::new(tags.iter().map(|&t| from(t)).collect(), shape.to_vec()).expect("harness: array literal");
+    for chained in [false, true] {
+        let recv = if chained { "Ok(array) receiver" } else { "plain receiver" };
+        let got = run(&a, steps, chained);
+        if class(&got) != class(canon) { return Some(format!("TYPE-DIVERGENCE {label}, {recv}: outcome class {} instead of {}", class(&got), class(canon))); }
+        if let (Ok(Ok(g)), Ok(Ok(c))) = (&got, canon) {
+            if !consistent(g) { return Some(format!("TYPE-DIVERGENCE {label}, {recv}: inconsistent array")); }
+            let (gs, cs, ge, ce) = (g.get_shape().unwrap(), c.get_shape().unwrap(), g.get_elements().unwrap(), c.get_elements().unwrap());
+            if gs != cs || ge.len() != ce.len() { return Some(format!("TYPE-DIVERGENCE {label}, {recv}: shape {} instead of {}", show_list(&gs), show_list(&cs))); }
+            for p in 0..ge.len() { let want = from(ce[p]); if !same(&ge[p], &want) {
+                return Some(format!("TYPE-DIVERGENCE {label}, {recv}: flat position {p} holds {:?} instead of {:?} (compared bit-wise for floats)", ge[p], want)); } }
+        }
+    }
+    None
+}
+
+/// f64 value classes by tag: -0.0, +0.0, NaN, the smallest subnormal, infinities, ordinary values
+fn special_f64(t: i64) -> f64 {
+    match t.rem_euclid(8) { 0 => -0.0, 1 => t as f64, 2 => f64::NAN, 3 => -(t as f64) - 0.5, 4 => f64::from_bits(1), 5 => 0.0, 6 => f64::NEG_INFINITY, _ => f64::from_bits(0xFFF8_0000_0000_0001) }
 }
 
 fn exec(op: &str, args: &[&str], expected: &str) -> Option<Verdict> {
-    let a = parse_arr_i64(args[0]);
-    let obs = match op {
-        "transpose" => { let ax: Option<Vec<isize>> = if args[1] == "none" { None } else { Some(parse_isize_list(args[1])) }; guarded(|| res_arr(&a.transpose(ax.clone()))) }
-        "moveaxis" => { let (s, d) = (parse_isize_list(args[1]), parse_isize_list(args[2])); guarded(|| res_arr(&a.moveaxis(s.clone(), d.clone()))) }
-        "rollaxis" => { let ax: isize = args[1].parse().ok()?; let st: Option<isize> = parse_opt(args[2]); guarded(|| res_arr(&a.rollaxis(ax, st))) }
-        "swapaxes" => { let (i, j): (isize, isize) = (args[1].parse().ok()?, args[2].parse().ok()?); guarded(|| res_arr(&a.swapaxes(i, j))) }
-        _ => return None,
+    let (shape, tags) = parse_arr_raw(args[0]);
+    let steps: Vec<Call> = match op {
+        "chain" => { if args.len() != 2 { return None; }
+            if args[1] == "-" { vec![] } else { let mut v = vec![]; for s in args[1].split('|') { let parts: Vec<&str> = s.split('=').collect(); v.push(Call::parse(parts[0], &parts[1..])?); } v } }
+        _ => vec![Call::parse(op, &args[1..])?],
     };
+    let a = parse_arr_i64(args[0]);
+    let canon = run(&a, &steps, false);
+    let mut obs = match &canon { Err(()) => "panic".to_string(), Ok(r) => { if let Ok(x) = r { if !consistent(x) { return Some(compare_default("ok INCONSISTENT".into(), expected)); } } res_arr(r) } };
+    // a disagreement of the i64 plain run with the model is reported as such (most readable); otherwise:
+    if let Verdict::Mismatch { observed, detail } = compare_default(obs.clone(), expected) { return Some(Verdict::Mismatch { observed, detail }); }
+    // both receivers on i64 (full text), then every other element type on both receivers
+    let ch = run(&a, &steps, true);
+    let ch_text = match &ch { Err(()) => "panic".to_string(), Ok(r) => res_arr(r) };
+    let div = if ch_text != obs { Some(format!("RECEIVER-DIVERGENCE the call on Ok(array) gives `{}`", truncate(&ch_text, 300))) } else { None }
+        .or_else(|| image("u8", &shape, &tags, &steps, &canon, tag_u8, |x, y| x == y))
+        .or_else(|| image("f64 (tag 0 = -0.0)", &shape, &tags, &steps, &canon, tag_f64z, |x, y| x.to_bits() == y.to_bits()))
+        .or_else(|| image("f64 special values", &shape, &tags, &steps, &canon, special_f64, |x, y| x.to_bits() == y.to_bits()))
+        .or_else(|| image("f32 (tag 0 = -0.0)", &shape, &tags, &steps, &canon, |t| if t == 0 { -0.0f32 } else { t as f32 }, |x, y| x.to_bits() == y.to_bits()))
+        .or_else(|| image("i8", &shape, &tags, &steps, &canon, tag_i8, |x, y| x == y))
+        .or_else(|| image("u64 above 2^53", &shape, &tags, &steps, &canon, |t| u64::MAX - (t.rem_euclid(1 << 40) as u64), |x, y| x == y))
+        .or_else(|| image("bool", &shape, &tags, &steps, &canon, |t| t.rem_euclid(2) == 1, |x, y| x == y))
+        .or_else(|| image("String", &shape, &tags, &steps, &canon, |t| t.to_string(), |x, y| x == y))
+        .or_else(|| image("char", &shape, &tags, &steps, &canon, |t| char::from_u32(0x30 + t.rem_euclid(0x700) as u32).unwrap_or('?'), |x, y| x == y));
+    if let Some(d) = div { obs = format!("{d}; i64 plain run: {}", truncate(&obs, 300)); }
     Some(compare_default(obs, expected))
 }
 
@@ -85,5 +308,5 @@ fn nontrivial(_op: &str, args: &[&str]) -> bool { parse_arr_raw(args[0]).0.iter(
 
 fn main() {
     harness_main(Spec { prop: "C06", gen, exec, nontrivial, hang_secs: 20,
-        rule: "exhaustive: every shape rank<=4 len<=3 x every permutation of its axes x sign spellings (all 2^rank for rank<=3 / thorough; 3 patterns for rank 4 quick); every (i,j) x 4 spellings for swapaxes / single-axis moveaxis / rollaxis(+None); every ordered pair of sources x destinations for 2-axis moveaxis, sampled 3+-axis lists; malformed stream (axis = ndim, ndim+1, -ndim-1, +-1000, repeated axes, wrong lengths); seeded random rank 5 (6 in thorough) len<=4. Tag arrays: shape AND every element compared. non-trivial = >=2 axes longer than 1" });
+        rule: "exhaustive: every shape rank<=4 len<=3 (+ 15 shapes with zero-length axes incl. [0,0],[0,3],[2,0,3]) x every permutation of its axes x sign spellings (all 2^rank for rank<=3 / thorough; 3 patterns for rank 4 quick); every (i,j) x 4 spellings for swapaxes / single-axis moveaxis / rollaxis(+None); every ordered pair of sources x destinations for 2-axis moveaxis, sampled 3+-axis lists; malformed stream (axis = ndim, ndim+1, -ndim-1, +-1000, repeated axes, wrong lengths); chains (permutation then inverse, same call twice, roll/move back, error passed on); seeded random rank 5 (6 in thorough) len<=4. Sizes: big_shapes() (axis lengths 7-17 in every position, counts >256/>1024/>4096 up to 70x70), every matrix r,c in 7..=17 x 11 spellings of the flip, matrices around 32 (thorough: 64) and long thin ones, rank 3 over {1,2,8,9,17}^3, random rank 2-5 with long axes, round-trip chains on big shapes. EVERY case runs on i64 tags (compared with the model) and on the u8, i8, u64>2^53, f64(-0.0), f32(-0.0), f64 special values (NaN, subnormal, +-0, inf; bit-wise), bool, String, char images, each on the plain AND the Ok(array) receiver. Tag arrays: shape AND every element compared. non-trivial = >=2 axes longer than 1" });
 }
